@@ -40,27 +40,25 @@ func main() {
 	}
 	defer os.RemoveAll(root)
 
-	plans := r.Pick(48, 2000)
+	plans := r.Pick(48, 1000)
 	vf.Parallel(plans, 12, func(i int) {
 		if r.Violations() > 10 {
 			return
 		}
 		dir := filepath.Join(root, fmt.Sprintf("p%d", i))
-		_ = os.MkdirAll(dir, 0755)
-		runPlan(r, bin, dir, i, false)
+		runPlanRetry(r, bin, dir, i, false)
 		_ = os.RemoveAll(dir)
 	})
 
 	// --- race leg
 	if _, err := os.Stat(raceBin); err == nil {
-		racePlans := r.Pick(6, 120)
+		racePlans := r.Pick(6, 60)
 		vf.Parallel(racePlans, 6, func(i int) {
 			if r.Violations() > 10 {
 				return
 			}
 			dir := filepath.Join(root, fmt.Sprintf("r%d", i))
-			_ = os.MkdirAll(dir, 0755)
-			stderr := runPlan(r, raceBin, dir, i, true)
+			stderr := runPlanRetry(r, raceBin, dir, i, true)
 			countRaces(r, stderr, i)
 			r.Count("race.plans", 1)
 			_ = os.RemoveAll(dir)
@@ -71,18 +69,18 @@ func main() {
 	}
 
 	r.Floor("plans.completed", int64(plans*9/10))
-	r.Floor("plans.gap-later-filled", int64(r.Pick(10, 500)))
-	r.Floor("plans.with-forged-blocks", int64(r.Pick(10, 500)))
-	r.Floor("plans.with-forged-next-block", int64(r.Pick(10, 500)))
-	r.Floor("plans.with-loss", int64(r.Pick(5, 300)))
-	r.Floor("plans.final-prefix-shorter-than-chain", int64(r.Pick(3, 100)))
-	r.Floor("steps.two-peers-concurrently", int64(r.Pick(10, 500)))
-	r.Floor("blocks.sent.already-held", int64(r.Pick(30, 1000)))
-	r.Floor("blocks.sent.above-a-gap", int64(r.Pick(30, 1000)))
-	r.Floor("requests.getb-equals-new-head", int64(r.Pick(100, 5000)))
-	r.Floor("stored-blocks.signature-checked", int64(r.Pick(1000, 50000)))
+	r.Floor("plans.gap-later-filled", int64(r.Pick(10, 250)))
+	r.Floor("plans.with-forged-blocks", int64(r.Pick(10, 250)))
+	r.Floor("plans.with-forged-next-block", int64(r.Pick(10, 250)))
+	r.Floor("plans.with-loss", int64(r.Pick(5, 150)))
+	r.Floor("plans.final-prefix-shorter-than-chain", int64(r.Pick(3, 50)))
+	r.Floor("steps.two-peers-concurrently", int64(r.Pick(10, 250)))
+	r.Floor("blocks.sent.already-held", int64(r.Pick(30, 500)))
+	r.Floor("blocks.sent.above-a-gap", int64(r.Pick(30, 500)))
+	r.Floor("requests.getb-equals-new-head", int64(r.Pick(100, 2000)))
+	r.Floor("stored-blocks.signature-checked", int64(r.Pick(1000, 20000)))
 	for _, c := range forgedClasses {
-		r.Floor("forged.offered-as-next-block."+c, int64(r.Pick(2, 100)))
+		r.Floor("forged.offered-as-next-block."+c, int64(r.Pick(2, 50)))
 	}
 	os.RemoveAll(root)
 	r.Count("bursts.shifted-around-read-cut", atomic.LoadInt64(&shiftedBursts))
